@@ -92,6 +92,9 @@ func Assume(c bool) {
 type CheckFailed struct{ Msg string }
 
 func Check(c bool, msg string) {
+	if len(msg) >= 5 && msg[:5] == "TWIN:" {
+		return // deliberately false twin assertions only matter to the solver run
+	}
 	if !c {
 		Failures = append(Failures, msg)
 		panic(CheckFailed{msg})
